@@ -254,6 +254,7 @@ pub async fn run_path(path: &Value, scratch: &Path, out: &mut Summary, backend: 
         let want = step["res"].as_str().unwrap_or("");
         let key = format!("{act}|{t}|view{}{}|{want}", view.len(), if view.contains(&99) { "+fork" } else { "" });
         out.nontrivial_keys.push(key);
+        let violations_before = out.violations.len();
         let fail = |out: &mut Summary, what: String| {
             out.violation(
                 format!("{backend} server, step {n} {act} {:?}: {what}", step["args"]),
@@ -297,6 +298,11 @@ pub async fn run_path(path: &Value, scratch: &Path, out: &mut Summary, backend: 
             if (ty != t || got != "success") && !unchanged {
                 fail(out, format!("the {ty} log changed although the request on {t} was answered {got}"));
             }
+        }
+        if out.violations.len() != violations_before {
+            // the rest of the path assumes the model's state
+            out.count("paths_cut_after_violation", 1);
+            break;
         }
     }
     if out.samples.len() < 3 {
